@@ -112,6 +112,11 @@ func (self AnalyzedLetStatement) String() string {
 	if self.IsPub {
 		pub = "pub "
 	}
+	// Only an annotation which the program has is printed: an inferred type does not always have a syntax
+	// (`never`, the type of a builtin function, a function taking a singleton, …).
+	if self.OptType == nil {
+		return fmt.Sprintf("%slet %s = %s;", pub, self.Ident, self.Expression)
+	}
 	return fmt.Sprintf("%slet %s: %s = %s;", pub, self.Ident, self.VarType, self.Expression)
 }
 func (self AnalyzedLetStatement) Type() Type { return NewNullType(self.Range) }
